@@ -8,6 +8,7 @@ from ..engine import flow
 from ..engine.mutate import Mutant, Variant, in_function, replace_once
 from ..engine.runner import Rule
 from ..engine.source import AnalysisError
+from . import C03
 from .common import callee_name, calls_in
 
 EXPLANATION = (
@@ -256,6 +257,22 @@ def rule_one_text(ctx):
     args = {g[0]: [ast.unparse(a) for a in g[1].args] for g in gp}
     ok = ok and args.get("workflow.Workflow.register_nglob") == ["ng.pattern", "step.label", "path", "creator_label"] and args.get("workflow.Workflow._raise_if_glob_match") == ["pattern", "glob_step_label", "path", "step_label"]
     ctx.check(ok, "workflow._glob_product_message", "both orders pass (pattern, glob step, path, building step)", f"call sites {args}", "two call sites, same roles")
+    # the building step is named by its node label at both sites: every caller of _raise_if_glob_match passes a label
+    # (`<step>.label`, or a name bound to Step.adjust_label(...)), which is what register_nglob reads from the node
+    ncall = 0
+    for f in mod.all_funcs.values():
+        for c in calls_in(f.node):
+            if callee_name(c) != "_raise_if_glob_match" or not c.args:
+                continue
+            ncall += 1
+            a0 = c.args[0]
+            ok = isinstance(a0, ast.Attribute) and a0.attr == "label"
+            if isinstance(a0, ast.Name):
+                binds = [x.value for x in ast.walk(f.node) if isinstance(x, ast.Assign) and len(x.targets) == 1 and isinstance(x.targets[0], ast.Name) and x.targets[0].id == a0.id and x.lineno < c.lineno]
+                ok = bool(binds) and all(isinstance(v, ast.Call) and callee_name(v) == "adjust_label" for v in binds)
+            ctx.check(ok, f.fq, f"_raise_if_glob_match({ast.unparse(a0)}, ...) names the step by its label", f"the building step is named by `{ast.unparse(a0)}`, not by its node label: with a working directory the text differs from the one register_nglob produces for the opposite arrival order", "label", where=ctx.where_of(f, c))
+    if ncall < 2:
+        raise AnalysisError("_raise_if_glob_match: callers not found")
     vi = [(f.fq) for f in mod.all_funcs.values() for c in calls_in(f.node) if isinstance(c.func, ast.Name) and c.func.id == "_volatile_input_message"]
     ctx.check(sorted(vi) == ["workflow.Workflow._declare_file", "workflow.Workflow._resolve_supply_file"], "workflow._volatile_input_message", "volatile-vs-input is reported by one formatter in both orders", f"call sites {sorted(vi)}", "two call sites")
 
@@ -271,10 +288,12 @@ def _inside_sorted(root, node):
 RULES = [
     Rule("R-C02-1", "observation never acquires ownership", rule_observation, min_instances=20),
     Rule("R-C02-2", "declaration lists and observable row orders are normalised", rule_normalised, min_instances=18),
-    Rule("R-C02-3", "one conflict, one text", rule_one_text, min_instances=30),
+    Rule("R-C02-3", "one conflict, one text", rule_one_text, min_instances=32),
+    Rule("R-C02-4", "the freshness clock is set in the transaction that publishes the outputs (amend outcome independent of arrival time)", C03.rule_atomic_completion, min_instances=3),
 ]
 
 MUTANTS = [
+    Mutant("glob-check-raw-command", "workflow.py", in_function("Workflow.define_step", replace_once("        self._raise_if_glob_match(step_label, out_paths + vol_paths)\n", "        self._raise_if_glob_match(command, out_paths + vol_paths)\n")), ("R-C02-3",)),
     Mutant("supply-owns", "workflow.py", in_function("Workflow._resolve_supply_file", replace_once("            file = self.create(File, None, path, state=state)\n", "            file = self.create(File, step, path, state=state)\n")), ("R-C02-1",)),
     Mutant("glob-declares", "workflow.py", in_function("Workflow.register_nglob", replace_once("        step.add_nglob(ng)\n", "        step.add_nglob(ng)\n        self.declare_static_files(step, [p for p in paths if not p.endswith(os.sep)])\n")), ("R-C02-1",)),
     Mutant("recreate-detached-with-creator", "workflow.py", in_function("Workflow._resolve_supply_file", replace_once("        elif file is None or file.creator() is None:", "        elif file is None or detached:")), ("R-C02-1",)),
